@@ -156,9 +156,10 @@ func GHASH(H []byte, A []byte, C []byte) (X []byte) {
 // return: 初始的计数器时钟(J0)
 func GetY0(H, IV []byte) []byte {
 	if len(IV)*8 == 96 {
-		zero31one1 := []byte{0x00, 0x00, 0x00, 0x01}
-		IV = append(IV, zero31one1...)
-		return IV
+		// J0 = IV || 0^31 || 1, in fresh memory (never in the spare capacity of the caller's IV)
+		Y0 := make([]byte, 0, BlockSize)
+		Y0 = append(Y0, IV...)
+		return append(Y0, 0x00, 0x00, 0x00, 0x01)
 	} else {
 		return GHASH(H, []byte{}, IV)
 	}
@@ -169,28 +170,14 @@ func incr(n int, Y_i []byte) (Y_ii []byte) {
 	Y_ii = make([]byte, BlockSize*n)
 	copy(Y_ii, Y_i)
 
+	// inc32 (SP 800-38D 6.2): increment the rightmost 32 bits modulo 2^32, leave the other 96 bits unchanged
 	addYone := func(yi, yii []byte) {
 		copy(yii[:], yi[:])
-
 		Len := len(yi)
-		var rc byte = 0x00
-		for i := Len - 1; i >= 0; i-- {
-			if i == Len-1 {
-				if yii[i] < 0xff {
-					yii[i] = yii[i] + 0x01
-					rc = 0x00
-				} else {
-					yii[i] = 0x00
-					rc = 0x01
-				}
-			} else {
-				if yii[i]+rc < 0xff {
-					yii[i] = yii[i] + rc
-					rc = 0x00
-				} else {
-					yii[i] = 0x00
-					rc = 0x01
-				}
+		for i := Len - 1; i >= Len-4; i-- {
+			yii[i]++
+			if yii[i] != 0x00 {
+				break
 			}
 		}
 	}
